@@ -13,12 +13,12 @@ def build_tools(work):
     return tools
 
 
-def prepare_batch(work, tools, seed, n_designs, race):
+def prepare_batch(work, tools, seed, n_designs, race, focus=""):
     """Returns (binary, specdir, stats)."""
     t0 = time.time()
     stats = {"designs_generated": n_designs, "rejected_by_goa": 0, "generator_failed": 0, "glue_failed": 0, "uncompilable": 0, "linked": 0, "rejected_reasons": []}
     specdir = work.path("specs")
-    sh([tools["designgen"], "-seed", str(seed), "-n", str(n_designs), "-out", specdir])
+    sh([tools["designgen"], "-seed", str(seed), "-n", str(n_designs), "-out", specdir, "-focus", focus])
     root = work.path("gen")
     os.makedirs(root, exist_ok=True)
     open(os.path.join(root, "go.mod"), "w").write(
@@ -97,6 +97,10 @@ def prepare_batch(work, tools, seed, n_designs, race):
             break
         bad = set(re.findall(r"\b(d\d+)/(?:gen|glue)/", out))
         if not bad:
+            if attempt == 0:
+                log("  batch build failed outside generated code, retrying once:\n" + out[-1500:])
+                time.sleep(2)
+                continue
             raise Trouble("batch build failed outside generated code:\n" + out[-3000:])
         for b in bad:
             stats["uncompilable"] += 1
@@ -144,7 +148,7 @@ def check(prop, tier, seed):
     details = []
     for b in range(batches):
         bseed = seed * 100 + b
-        binary, specdir, stats = prepare_batch(work if b == 0 else work, tools, bseed, n_designs, cfg["race"])
+        binary, specdir, stats = prepare_batch(work if b == 0 else work, tools, bseed, n_designs, cfg["race"], cfg.get("focus", ""))
         all_stats.append(stats)
         env_extra = {"VERIF_SPEC_DIR": specdir, "VERIF_GEN_DIR": work.path("gen")}
         outs = orch.run_workers(work, binary, prop, tier, bseed * 1000003, total // batches, budget / batches, cfg.get("args"), env_extra=env_extra)
@@ -198,7 +202,7 @@ def replay(rf, path):
     work = orch.Work()
     work.prepare()
     tools = build_tools(work)
-    binary, specdir, stats = prepare_batch(work, tools, rf["batch_seed"], rf["n_designs"], cfg["race"])
+    binary, specdir, stats = prepare_batch(work, tools, rf["batch_seed"], rf["n_designs"], cfg["race"], cfg.get("focus", ""))
     o = orch.run_tape(work, binary, prop, rf.get("tier", "quick"), {"seed": rf["seed"], "tape": rf["tape"]}, "replay", rf.get("args"), env_extra={"VERIF_SPEC_DIR": specdir, "VERIF_GEN_DIR": work.path("gen")})
     if o is None:
         raise Trouble("replay run failed")
